@@ -55,6 +55,35 @@ MUTANTS = [
      "old": "        lock_held = [True]\n",
      "new": "        instance.unlock()\n        lock_held = [False]\n",
      "note": "stream gives the lock up right away: other requests may interleave"},
+    # ---- C15
+    {"id": "c15-undecorated-stop-instance", "property": "C15", "file": S,
+     "old": "    @token_required\n    def _stop_instance_resource", "new": "    def _stop_instance_resource"},
+    {"id": "c15-undecorated-session-results", "property": "C15", "file": S,
+     "old": "    @token_required\n    def _session_results_resource", "new": "    def _session_results_resource"},
+    {"id": "c15-undecorated-run", "property": "C15", "file": S,
+     "old": "    @token_required\n    def _run_resource", "new": "    def _run_resource"},
+    {"id": "c15-undecorated-keep-alive", "property": "C15", "file": S,
+     "old": "    @token_required\n    def _keep_alive_resource", "new": "    def _keep_alive_resource"},
+    {"id": "c15-undecorated-load-state", "property": "C15", "file": S,
+     "old": "    @token_required\n    def _load_state_resource", "new": "    def _load_state_resource"},
+    {"id": "c15-startswith", "property": "C15", "file": S,
+     "old": "                if token != self._bearer_token:", "new": "                if not self._bearer_token.startswith(token):"},
+    {"id": "c15-case-insensitive", "property": "C15", "file": S,
+     "old": "                if token != self._bearer_token:", "new": "                if token.lower() != self._bearer_token.lower():"},
+    {"id": "c15-handler-runs-before-401", "property": "C15", "file": S,
+     "old": "                if token != self._bearer_token:\n                    resp = make_response",
+     "new": "                if token != self._bearer_token:\n                    f(self, *args, **kwargs)\n                    resp = make_response"},
+    {"id": "c15-missing-header-passes", "property": "C15", "file": S,
+     "old": "            if self._bearer_token is not None:\n                token = None\n",
+     "new": "            if self._bearer_token is not None:\n                token = self._bearer_token\n"},
+    {"id": "c15-new-open-route", "property": "C15", "file": S,
+     "old": "    def token_required(f):",
+     "new": "    def _purge_resource(self, instance_uuid):\n        self._instance_manager._delete_instance(instance_uuid)\n        return make_response('purged', 200)\n\n    def token_required(f):",
+     "edits": [("        self.route(\"/<instance_uuid>/stop-instance\", methods=['POST'], strict_slashes=False)(self._stop_instance_resource)\n",
+                "        self.route(\"/<instance_uuid>/stop-instance\", methods=['POST'], strict_slashes=False)(self._stop_instance_resource)\n        self.route(\"/<instance_uuid>/purge\", methods=['DELETE'], strict_slashes=False)(self._purge_resource)\n")]},
+    {"id": "c15-get-bypasses-check", "property": "C15", "file": S,
+     "old": "            if self._bearer_token is not None:\n                token = None",
+     "new": "            if self._bearer_token is not None and request.method != 'HEAD':\n                token = None"},
     # ---- C16
     {"id": "c16-one-bptk-for-all", "property": "C16", "file": S,
      "old": "        return self._bptk_factory()\n",
